@@ -107,6 +107,9 @@ def averageifs(average_range, *args):
         return coords
 
     data = _numerics((average_range[r][c] for r, c in coords), keep_bools=True)
+    if isinstance(data, str):
+        # an error value in a selected cell is the result
+        return data
     if len(data) == 0:
         return DIV0
     return sum(data) / len(data)
@@ -552,10 +555,12 @@ def maxifs(max_range, *args):
         if isinstance(coords, str):
             return coords
 
-        return max(_numerics(
+        data = _numerics(
             (max_range[r][c] for r, c in coords),
             keep_bools=True
-        ))
+        )
+        # an error value in a selected cell is the result
+        return data if isinstance(data, str) else max(data)
     except ValueError:
         return 0
 
@@ -594,10 +599,12 @@ def minifs(min_range, *args):
         if isinstance(coords, str):
             return coords
 
-        return min(_numerics(
+        data = _numerics(
             (min_range[r][c] for r, c in coords),
             keep_bools=True
-        ))
+        )
+        # an error value in a selected cell is the result
+        return data if isinstance(data, str) else min(data)
     except ValueError:
         return 0
 
